@@ -70,7 +70,9 @@ func runFaultFamily(s *Sim, prop string) {
 	y.PingInterval = Pick(t, "ping-iv", 10*time.Second, time.Second, 2*time.Second, 5*time.Second, 30*time.Second)
 	y.PingTimeout = Pick(t, "ping-to", time.Second, 2*time.Second, 5*time.Second)
 	s.yieldDensity = Pick(t, "yield", 0, 0, 20, 200)
-	fc.fastRedial = t.Bool("fast-redial", 1, 4)
+	// (not under the race detector's burst stepping: the inline handshake runs the broker model on a
+	// library goroutine, which there is not separated from the scheduler's own use of it by a quiescence point)
+	fc.fastRedial = t.Bool("fast-redial", 1, 4) && !s.RaceMode
 
 	nUp, nDown := 1, 0
 	if prop == "C02" {
